@@ -444,7 +444,7 @@ func (p *Printer) flushHeredocs() {
 		return
 	}
 	hdocs := p.pendingHdocs
-	p.pendingHdocs = p.pendingHdocs[:0]
+	p.pendingHdocs = nil // the bodies may queue here-documents of their own
 	coms := p.pendingComments
 	p.pendingComments = nil
 	if len(coms) > 0 {
@@ -711,8 +711,14 @@ func (p *Printer) wordPart(wp, next WordPart) {
 			p.space()
 		}
 		p.w.WriteString(wp.Op.String())
+		outer := p.pendingHdocs
+		p.pendingHdocs = nil
 		p.nestedStmts(wp.Stmts, wp.Last, wp.Rparen)
+		if len(p.pendingHdocs) > 0 {
+			p.mustNewline = true
+		}
 		p.rightParen(wp.Rparen)
+		p.pendingHdocs = append(p.pendingHdocs, outer...)
 	}
 }
 
@@ -838,6 +844,14 @@ func (p *Printer) paramExp(pe *ParamExp) {
 }
 
 func (p *Printer) cmdSubst(cs *CmdSubst) {
+	// The bodies of here-documents pending outside of a command substitution
+	// cannot start at a newline inside of it, and those started inside must
+	// be written before it is closed.
+	outer := p.pendingHdocs
+	p.pendingHdocs = nil
+	defer func() {
+		p.pendingHdocs = append(p.pendingHdocs, outer...)
+	}()
 	switch {
 	case cs.TempFile:
 		p.w.WriteString("${")
@@ -864,6 +878,9 @@ func (p *Printer) cmdSubst(cs *CmdSubst) {
 			p.wantSpace = spaceNotRequired
 		}
 		p.nestedStmts(cs.Stmts, cs.Last, cs.Right)
+		if len(p.pendingHdocs) > 0 {
+			p.mustNewline = true
+		}
 		p.closingParen(cs.Stmts, cs.Last, cs.Left, cs.Right)
 	}
 }
@@ -1548,8 +1565,13 @@ func (p *Printer) assigns(assigns []*Assign) {
 		} else if a.Array != nil {
 			p.wantSpace = spaceNotRequired
 			p.w.WriteByte('(')
+			// Like in a command substitution, here-documents pending
+			// outside cannot start at a newline inside the array.
+			outer := p.pendingHdocs
+			p.pendingHdocs = nil
 			p.elemJoin(a.Array.Elems, a.Array.Last)
 			p.rightParen(a.Array.Rparen)
+			p.pendingHdocs = append(p.pendingHdocs, outer...)
 		}
 		p.wantSpace = spaceRequired
 	}
